@@ -62,8 +62,61 @@ def rebuild(mol):
     return m
 
 
+def use_pattern(p, tints, k=3):
+    """run a search with the pattern (fills whatever the pattern object caches); results are thrown away"""
+    t = make_target(tints)
+    kw = {'_cython': False} if is_query(p) else {}
+    for af in (True, False):
+        list(itertools.islice(p.get_mapping(t, automorphism_filter=af, **kw), k))
+    try:
+        p.is_substructure(t)
+    except Exception:
+        pass
+
+
+def run_history(steps):
+    """A pattern OBJECT with a past: built, used in searches, then copied / joined / edited through the public API.
+    steps: ['new', spec] ['use', target_ints] ['copy'] ['or', spec] ['ior', spec] ['union', spec] ['add_atom', symbol]
+           ['add_bond', n, m, order] ['delete_bond', n, m] ['delete_atom', n] ['remap', [[old, new], ...]]"""
+    p = None
+    for st in steps:
+        op = st[0]
+        if op == 'new':
+            p = make_pattern(st[1]) if isinstance(st[1], dict) else make_target(st[1])
+        elif op == 'use':
+            use_pattern(p, st[1])
+        elif op == 'searched':      # the object is the TARGET of a search
+            q = make_pattern(st[1])
+            kw = {'_cython': False} if is_query(q) else {}
+            for af in (True, False):
+                list(itertools.islice(q.get_mapping(p, automorphism_filter=af, **kw), 3))
+        elif op == 'copy':
+            p = p.copy()
+        elif op == 'or':
+            p = p | make_pattern(st[1])
+        elif op == 'ior':
+            p |= make_pattern(st[1])
+        elif op == 'union':
+            p = p.union(make_pattern(st[1]), remap=True)
+        elif op == 'add_atom':
+            p.add_atom(st[1])
+        elif op == 'add_bond':
+            p.add_bond(st[1], st[2], st[3])
+        elif op == 'delete_bond':
+            p.delete_bond(st[1], st[2])
+        elif op == 'delete_atom':
+            p.delete_atom(st[1])
+        elif op == 'remap':
+            p.remap({a: b for a, b in st[1]})
+        else:
+            raise ValueError(op)
+    return p
+
+
 def make_pattern(spec):
-    """spec: {'mol': [ints]} | {'smarts': str} -> container"""
+    """spec: {'mol': [ints]} | {'smarts': str} | {'hist': [steps]} -> container"""
+    if 'hist' in spec:
+        return run_history(spec['hist'])
     if 'smarts' in spec:
         from chython import smarts
         return smarts(spec['smarts'])
@@ -72,8 +125,15 @@ def make_pattern(spec):
 
 
 def make_target(ints):
+    """ints (wire format) | {'hist': steps} — a target molecule with a past (searched, then edited through the public API)"""
+    if isinstance(ints, dict):
+        return run_history(ints['hist'])
     m, _ = wire.ints_to_mol(ints, calc=True)
     return m
+
+
+def target_key(t):
+    return repr(t) if isinstance(t, dict) else tuple(t)
 
 
 def raw_mol_ints(atoms, bonds):
@@ -140,13 +200,57 @@ def has_query_stereo(p):
     return any(b.stereo is not None for _, _, b in p.bonds())
 
 
-def real_mappings(p, t, af, scope):
+def real_mappings(p, t, af, scope, accelerated=False):
     kw = {'automorphism_filter': af}
     if scope is not None:
         kw['searching_scope'] = list(scope)
     if is_query(p):
-        kw['_cython'] = False
+        kw['_cython'] = bool(accelerated)
     return [dict(m) for m in p.get_mapping(t, **kw)]
+
+
+_accel = {'ok': None}
+
+
+def install_accelerated():
+    """the translated `_isomorphism.pyx` (pyx2py rendering of the working tree) as `chython.algorithms._isomorphism`"""
+    if _accel['ok'] is None:
+        try:
+            from ..gen import pyx2py
+            pyx2py.install()
+            from chython.algorithms._isomorphism import get_mapping  # noqa: F401
+            _accel['ok'] = True
+        except Exception as e:
+            _accel['ok'] = False
+            _accel['why'] = f'{type(e).__name__}: {e}'
+    return _accel['ok']
+
+
+def accel_domain(p, t):
+    """inside the documented domain of the bit-mask matcher (its recorded gaps belong to C09): elements <= 116, query hydrogen
+    counts <= 4, ring sizes <= 65, known hydrogen counts wherever the query constrains them, isotopes within the window"""
+    from chython.periodictable import AnyMetal
+    h_constrained = False
+    for a in p._atoms.values():
+        if isinstance(a, AnyMetal):
+            continue
+        if any(h > 4 for h in a.implicit_hydrogens) or any(r > 65 for r in a.ring_sizes):
+            return False
+        if getattr(a, 'atomic_number', 0) > 116 or any(z > 116 for z in getattr(a, 'atomic_numbers', ())):
+            return False
+        if getattr(a, 'isotope', None) and abs(a.isotope - a.mdl_isotope) > 8:
+            return False
+        h_constrained = h_constrained or bool(a.implicit_hydrogens)
+    for a in t._atoms.values():
+        if a.atomic_number > 116 or (a.implicit_hydrogens or 0) > 4 or a.neighbors > 14 or a.heteroatoms > 14:
+            return False
+        if a.isotope and abs(a.isotope - a.mdl_isotope) > 8:
+            return False
+        if h_constrained and a.implicit_hydrogens is None:
+            return False
+        if any(r > 65 for r in a.ring_sizes) or abs(a.charge) > 4:
+            return False
+    return True
 
 
 def canon(ms):
@@ -531,7 +635,7 @@ def all_injections_embeddings(p, t, scope):
     return res
 
 
-def property_check(p, t, scope, ops=True):
+def property_check(p, t, scope, ops=True, accelerated=False):
     """Run the real code on (p, t, scope) for both filter settings (+ operators) and compare with the reference.
     Returns (fails, signature, what)."""
     eff_scope = scope
@@ -545,7 +649,12 @@ def property_check(p, t, scope, ops=True):
         lit = canon(all_injections_embeddings(p, t, eff_scope))
         if lit != ref:
             return False, None, 'reference enumerators disagree (oracle problem, not reported)'
-    st, got = outcome(lambda: canon(real_mappings(p, t, False, scope)))
+    if accelerated:
+        if not is_query(p) or not accel_domain(p, t):
+            return False, None, 'outside the domain of the accelerated matcher'
+        install_accelerated()
+        ops = False
+    st, got = outcome(lambda: canon(real_mappings(p, t, False, scope, accelerated)))
     if st != 'ok':
         return True, f'C07/raises/{st}', f'get_mapping raised {st}'
     if got != ref:
@@ -557,10 +666,10 @@ def property_check(p, t, scope, ops=True):
             return True, 'C07/scope/empty-scope-ignored', (f'empty searching_scope: {len(got)} mappings returned, '
                                                            f'{len(ref)} embeddings lie inside the scope')
         kind = 'spurious' if extra else ('duplicate' if dup and not missing else 'missing')
-        where = 'scope' if scope is not None else 'unfiltered'
+        where = 'accelerated' if accelerated else 'scope' if scope is not None else 'unfiltered'
         return True, f'C07/{where}/{kind}-mapping', (f'real={len(got)} reference={len(ref)} spurious={extra[:2]} '
                                                       f'missing={missing[:2]} duplicates={dup}')
-    st, gotf = outcome(lambda: canon(real_mappings(p, t, True, scope)))
+    st, gotf = outcome(lambda: canon(real_mappings(p, t, True, scope, accelerated)))
     if st != 'ok':
         return True, f'C07/raises/{st}', f'get_mapping(automorphism_filter=True) raised {st}'
     want_sets = sorted({tuple(sorted(dict(m).values())) for m in ref})
@@ -857,6 +966,89 @@ def gen_cases(ctx):
             done += 1
             if done >= (1 if quick else 3):
                 break
+    # E2. hydrogen / neighbour boundary values of the target (implicit H 0..4, bare atoms, saturated centres) under query atoms
+    #     with and without a constraint on them
+    hyd = ['C', 'N', 'O', 'F', 'P', 'S', '[NH4+]', '[BH4-]', '[SiH4]', '[CH3-]', '[OH-]', '[Na+].[Cl-]', 'CC', 'C=C', 'C#C',
+           'C.O', 'C.CO', '[NH4+].[Cl-]', '[BH4-].[Na+]', 'CC(C)(C)C', 'FC(F)(F)F', 'CS(C)(=O)=O', 'C[N+](C)(C)C']
+    hq = ['[C]', '[N]', '[A]', '[C,Si]', '[N;+]', '[B;-]', '[C;h4]', '[C;h3,h4]', '[A;h0]', '[A;h1,h2]', '[C,N;h4]', '[A;h4]', '[C;D0]',
+          '[A;D0]', '[C;D4]', '[A;D4;x4]', '[C;x0]', '[A;x1,x2]', '[C].[O]', '[N;+].[Cl;-]', '[Na;+].[B;-]', '[M]', '[A;D1]-[A;D4]']
+    for hs in hq:
+        for ts in hyd:
+            tm = molgen.parse(ts)
+            if tm is not None:
+                yield f'h-boundary:{hs}', {'smarts': hs}, wire.mol_to_ints(tm), None
+    # E3. histories: the PATTERN (or the TARGET) is an object with a past — used in a search, then copied / joined / edited
+    #     through the public API; whatever it caches (compiled query, components) must describe its current atoms and bonds
+    q_pool = [x for x in (sm + HAND_SMARTS) if '.' not in x and '|' not in x and '@' not in x.replace(';@', '').replace(';!@', '')]
+    m_pool = [sx for sx, _ in frags if '.' not in sx]
+
+    def rand_spec(query):
+        return {'smarts': rng.choice(q_pool)} if query else {'mol': wire.mol_to_ints(molgen.parse(rng.choice(m_pool)))}
+
+    def rand_tail(obj, query, as_target=False):
+        """one or two public-API operations applicable to the object as it is now"""
+        atoms = list(obj._atoms)
+        nxt = max(atoms) + 1
+        choices = [[['copy']], [['or', rand_spec(query)]], [['ior', rand_spec(query)]], [['union', rand_spec(query)]],
+                   [['add_atom', rng.choice(['C', 'N', 'O'])]],
+                   [['add_atom', rng.choice(['C', 'N', 'O'])], ['add_bond', rng.choice(atoms), nxt, 1]],
+                   [['remap', [[a, a + 40] for a in rng.sample(atoms, max(1, len(atoms) // 2))]]],
+                   [['copy'], ['add_atom', 'C'], ['add_bond', rng.choice(atoms), nxt, 1]],
+                   [['copy'], ['or', rand_spec(query)]]]
+        if len(atoms) >= 2:
+            nonb = [(a, b) for a in atoms for b in atoms if a < b and b not in obj._bonds[a]]
+            if nonb:
+                a, b = rng.choice(nonb)
+                choices.append([['add_bond', a, b, 1]])
+        if not query:
+            bl = [(a, b) for a, b, _ in obj.bonds()]
+            if bl:
+                choices.append([['delete_bond', *rng.choice(bl)]])
+            if len(atoms) >= 2:
+                choices.append([['delete_atom', rng.choice(atoms)]])
+        return rng.choice(choices)
+
+    n_hist = 60 if quick else 500
+    for i in range(n_hist):
+        query = rng.random() < 0.5
+        base = rand_spec(query)
+        try:
+            obj = make_pattern(base)
+        except Exception:
+            continue
+        if is_query(obj) and has_query_stereo(obj):
+            continue
+        tag0, m0 = rng.choice(pool)
+        steps = [['new', base], ['use', wire.mol_to_ints(m0)]]
+        try:
+            steps += rand_tail(obj, query)
+            cur = run_history(steps)
+            if rng.random() < 0.3:   # a second round: use again, edit again
+                steps += [['use', wire.mol_to_ints(m0)]] + rand_tail(cur, query)
+                cur = run_history(steps)
+        except Exception as e:
+            ctx.dist('history-not-applicable:' + type(e).__name__)
+            continue
+        if len(cur._atoms) == 0 or len(cur._atoms) > 14:
+            continue
+        tag1, m1 = rng.choice(pool)
+        for tm in (m0, union([m0, m1]) if len(m0) + len(m1) <= 40 else m1):
+            yield 'history:pattern', {'hist': steps}, tgt(tm), None
+    # target objects with a past: searched, then edited
+    for i in range(20 if quick else 150):
+        tag0, m0 = rng.choice([x for x in hand if 2 <= len(x[1]) <= 12] + targets[:10])
+        tin = wire.mol_to_ints(m0)
+        pq = rand_spec(rng.random() < 0.5)
+        steps = [['new', tin], ['searched', pq]]
+        try:
+            obj = make_target(tin)
+            steps += rand_tail(obj, False, as_target=True)
+            run_history(steps)
+        except Exception as e:
+            ctx.dist('history-not-applicable:' + type(e).__name__)
+            continue
+        yield 'history:target', pq, {'hist': steps}, None
+        yield 'history:target', rand_spec(rng.random() < 0.5), {'hist': steps}, None
     # E. empty scope (boundary)
     for tag, m in rng.sample(hand, 4):
         yield f'empty-scope:{tag}', {'mol': wire.mol_to_ints(molgen.parse('C'))}, tgt(m), []
@@ -921,13 +1113,21 @@ def disagree(ctx, stream, detail, suspect=None):
         _state['suspects'].append((stream, suspect))
 
 
+def quick_accel_skip(ctx, tag):
+    """the rendering of the compiled matcher is slow: in the quick tier only the small systematic cases and a sample"""
+    if not ctx.quick:
+        return False
+    kind = tag.split(':')[0]
+    return kind not in ('attr-grid', 'h-boundary', 'multi-smarts', 'history') and ctx.rng.random() > 0.15
+
+
 def stream_get_mapping(ctx):
     from chython.algorithms.isomorphism import _compile_query
     lines, meta = [], []
     seen_lines = set()
     t_cache = {}
     for tag, pspec, tints, scope in gen_cases(ctx):
-        key = tuple(tints)
+        key = target_key(tints)
         if key not in t_cache:
             if len(t_cache) > 64:
                 t_cache.clear()
@@ -950,6 +1150,19 @@ def stream_get_mapping(ctx):
             ctx.dist('skipped:too-many-mappings')
             continue
         st1, r1 = outcome(lambda: real_mappings(p, t, True, scope))
+        # the accelerated (bit-mask) matcher must return the same multisets wherever it is defined
+        if is_query(p) and st0 == 'ok' and st1 == 'ok' and install_accelerated() and accel_domain(p, t) and \
+                (not quick_accel_skip(ctx, tag)):
+            p2 = make_pattern(pspec)   # a fresh object: its compiled forms are built by the accelerated call itself
+            for af, rr in ((False, r0), (True, r1)):
+                sta, ra = outcome(lambda: real_mappings(p2, t, af, scope, accelerated=True))
+                ctx.count(('accel', tag, af, target_key(tints), repr(scope)), nontrivial=bool(rr))
+                ctx.dist('accelerated-compared')
+                same = sta == 'ok' and (canon(ra) == canon(rr) if not af else
+                                        sorted(tuple(sorted(m.values())) for m in ra) == sorted(tuple(sorted(m.values())) for m in rr))
+                if not same:
+                    disagree(ctx, 'get_mapping/accelerated-vs-python', f'{tag}: filter={af} accelerated {sta} '
+                             f'{len(ra) if ra is not None else "-"} mappings, python path {len(rr)}', dict(inp, accelerated=True))
         for af, st, r in ((0, st0, r0), (1, st1, r1)):
             line, nontrivial = gm_line(p, t, af, scope)
             ga = ga_line(p, t, af, scope)
@@ -963,7 +1176,8 @@ def stream_get_mapping(ctx):
             lines.append(line)
             meta.append(('GM', tag, inp, af, st, r, nontrivial, r0 if st0 == 'ok' else None))
         # the private linearisation: relational check of the real output + literal comparison (informational)
-        stc, cq = outcome(lambda: _compile_query(p._atoms, p._bonds))
+        # (`_compiled_query` is what the matcher reads: a cached value that must describe the CURRENT atoms and bonds)
+        stc, cq = outcome(lambda: p._compiled_query if hasattr(type(p), '_compiled_query') else _compile_query(p._atoms, p._bonds))
         g = graph_ints(list(p._atoms), p._bonds)
         if stc == 'ok':
             lines.append('CK ' + ' '.join(map(str, g + compiled_ints(*cq))))
@@ -1204,7 +1418,7 @@ def check_input(inp):
         return automorphism_check(m)
     p = make_pattern(inp['pattern'])
     t = make_target(inp['target'])
-    return property_check(p, t, inp.get('scope'))
+    return property_check(p, t, inp.get('scope'), accelerated=bool(inp.get('accelerated')))
 
 
 def reference_automorphisms(m, budget=500_000):
@@ -1285,16 +1499,20 @@ def neighbourhood(rng, inp, k=12):
         p = make_pattern(inp['pattern'])
     except Exception:
         return
+    acc = bool(inp.get('accelerated'))
+    if isinstance(inp['target'], dict):   # a target with a history: first the same final structure without the history
+        yield {'pattern': inp['pattern'], 'target': wire.mol_to_ints(t), 'scope': inp.get('scope'), 'accelerated': acc}
     for _ in range(k if len(t) > 2 else 0):
         atoms = connected_cut(rng, t, rng.randint(2, min(len(t), 9)))
         sub = rebuild(t.substructure(atoms, recalculate_hydrogens=False))
         sc = inp.get('scope')
-        yield {'pattern': inp['pattern'], 'target': wire.mol_to_ints(sub), 'scope': None if sc is None else [x for x in sc if x in sub._atoms]}
+        yield {'pattern': inp['pattern'], 'target': wire.mol_to_ints(sub), 'accelerated': acc,
+               'scope': None if sc is None else [x for x in sc if x in sub._atoms]}
     if 'mol' in inp['pattern'] and len(p) > 2:
         for _ in range(k // 2):
             atoms = connected_cut(rng, p, rng.randint(1, len(p) - 1))
             sp = p.substructure(atoms, recalculate_hydrogens=False)
-            yield {'pattern': {'mol': wire.mol_to_ints(sp)}, 'target': inp['target'], 'scope': inp.get('scope')}
+            yield {'pattern': {'mol': wire.mol_to_ints(sp)}, 'target': inp['target'], 'scope': inp.get('scope'), 'accelerated': acc}
 
 
 def fresh_small_cases(ctx, n):
